@@ -367,6 +367,9 @@ LAZY = [
  "std.length(std.setUnion([D], [], function(x) 1)) == 1 || D", "std.length(std.setInter([D], [], function(x) 1)) == 0 || D",
  "std.get({a: E, b: D}, 'a')", "std.mapWithIndex(function(i, x) i, [D, D])[1] == 1 || D", "std.objectKeysValues({a: D})[0].key == 'a' || D",
  "std.slice([D, E], 1, null, null)[0]", "std.length(std.slice([D, D], null, null, 2)) == 1 || D",
+ # the same element-wise builtins over the characters of a string
+ "std.length(std.map(function(c) D, 'ab')) == 2 || D", "std.map(function(c) if c == 'a' then D else E, 'ab')[1]", "std.map(function(c) E, 'a')[0]",
+ "std.length(std.map(function(c) D, std.stringChars('ab'))) == 2 || D", "std.length(std.mapWithIndex(function(i, c) D, std.stringChars('ab'))) == 2 || D",
  # formatting consumes what its directives use: a '*' precision that the conversion ignores, object fields no directive names
  "std.length('%.*s' % [D, 'abc']) == 3 || D", "std.length('%.*c' % [D, 'a']) == 1 || D", "'%(a)s' % {a: 'x', b: D} == 'x' || D", "std.format('%(a)d|%(a)s', {a: 1, zz: D}) == '1|1' || D",
  "'%%' % [] == '%' || D", "std.length('%5.*s' % [D, 'ab']) == 5 || D",
